@@ -170,3 +170,62 @@ theorem clauseFaithful_of_filter (p : Program) (h : p.all filterRule = true) : C
   exact evalRuleM_eq_of_filter r (List.all_eq_true.1 h r hr) lk
 
 end ILV.Engine
+
+/-! ### completeness of the Spec's clause evaluator -/
+namespace ILV.Engine
+open ILV ILV.DL
+
+theorem optMapM_congr {α β} (f g : α → Option β) : ∀ (l : List α), (∀ a, a ∈ l → f a = g a) → optMapM f l = optMapM g l
+  | [], _ => rfl
+  | a :: as, h => by
+    unfold optMapM
+    rw [h a (List.mem_cons_self ..), optMapM_congr f g as (fun x hx => h x (List.mem_cons_of_mem _ hx))]
+
+/-- **Completeness of the Spec's clause evaluator** (aggregate-free rule without comparison
+    literals, range-restricted: head variables and variables of negated atoms occur in positive
+    atoms): every head instance of a valuation that satisfies the body declaratively is derived. -/
+theorem evalRuleLk_complete (lk : String → List Tuple) (r : Rule) (hagg : r.hasAgg = false) (hc : r.cmps = [])
+    (hsafeH : ∀ x, x ∈ r.hargs.flatMap HTerm.vars → x ∈ r.posVars)
+    (hsafeN : ∀ a, a ∈ r.negAtoms → ∀ x, Term.var x ∈ a.args → x ∈ r.posVars)
+    (ts : List Tuple) (hev : evalRuleLk lk r = some ts)
+    (env : Env) (hsat : BodySat lk r env) (t : Tuple) (hhead : HeadInst r env t) : t ∈ ts := by
+  obtain ⟨e', he', hag⟩ := evalPos_complete lk env r.posAtoms [[]] [] hsat.pos (List.mem_singleton.2 rfl)
+    (fun x v h => by simp [List.lookup] at h)
+  have hbound : ∀ x, x ∈ r.posVars → ∃ v, e'.lookup x = some v := by
+    intro x hx
+    have := evalPos_binds lk r e' he' x hx
+    unfold bound at this
+    exact Option.isSome_iff_exists.1 this
+  unfold evalRuleLk headOfSpec at hev
+  simp only [hagg, Bool.false_eq_true, if_false] at hev
+  unfold headRows at hev
+  refine (optMapM_some_mem _ _ _ hev t).2 ⟨e', ?_, ?_⟩
+  · -- e' is a body valuation of the evaluator
+    unfold bodyEnvs evalNegs
+    refine List.mem_filter.2 ⟨?_, ?_⟩
+    · rw [hc]
+      unfold specCmps
+      simp only [List.length_nil, List.all_nil]
+      refine List.mem_filter.2 ⟨List.mem_filter.2 ⟨List.mem_map.2 ⟨e', he', rfl⟩, rfl⟩, rfl⟩
+    · rw [List.all_eq_true]
+      intro a ha
+      unfold negHolds
+      rw [List.all_eq_true]
+      intro t' ht'
+      have hn := hsat.neg a ha t' ht'
+      have := matchArgs_none_of_agree a.args t' env e' (fun x hx => hbound x (hsafeN a ha x hx)) hag hn
+      simp [this]
+  · -- the head instance is the same under e'
+    unfold HeadInst at hhead
+    rw [← hhead]
+    apply optMapM_congr
+    intro h hh
+    cases h with
+    | var x =>
+      have hx : x ∈ r.hargs.flatMap HTerm.vars := List.mem_flatMap.2 ⟨.var x, hh, by simp [HTerm.vars]⟩
+      obtain ⟨v, hv⟩ := hbound x (hsafeH x hx)
+      simp only [HTerm.plain, hv, hag x v hv]
+    | const c => rfl
+    | agg f x => rfl
+
+end ILV.Engine
